@@ -117,6 +117,8 @@ def run(item, ctx, tier, seed):
             npos, nneg = [-x for x in pos], [-x for x in neg]
             ok, sn = guarded(ctx, "negate-construct", case, Scores, npos, nneg, nb_easy_pos=ep, nb_easy_neg=en,
                              score_class=_flip(sc), equal_class=ec)
+            if not ok:
+                sn = None
             if ok:
                 ok, mn = guarded(ctx, "negate-cm", case, lambda: sn.cm(-Tarr).matrix)
                 ctx.tick(len(T))
@@ -124,6 +126,45 @@ def run(item, ctx, tier, seed):
                     k = int(np.argmax(np.any(mn != m0, axis=(1, 2))))
                     ctx.fail("negation-leaves-matrix-unchanged", dict(case, threshold=T[k]), observed=mn[k],
                              expected=m0[k])
+            # ---------------------------------------- the same relations on an object that is updated in place
+            if item["grid"] in ("irregular", "int") and (ep, en) == tuple(b["easy"][1 if len(b["easy"]) > 1 else 0]) and both:
+                # (a) swap() - re-bind the scores and easy counts - swap() again: the second twin mirrors the *current* object
+                ok, o = guarded(ctx, "construct", case, Scores, [2 * x + 1 for x in pos], [2 * x + 1 for x in neg], nb_easy_pos=ep + 1,
+                                nb_easy_neg=en, score_class=sc, equal_class=ec)
+                if ok:
+                    guarded(ctx, "swap", case, lambda: o.swap().cm(Tarr).matrix)
+                    o.pos, o.neg = np.array(sorted(pos), dtype=np.asarray(s.pos).dtype), np.array(sorted(neg), dtype=np.asarray(s.neg).dtype)
+                    o.nb_easy_pos, o.nb_easy_neg = ep, en
+                    ok, m2 = guarded(ctx, "swap-cm", case, lambda: o.swap().cm(Tarr).matrix)
+                    ctx.tick(len(T))
+                    if ok and not np.array_equal(m2, m0[:, ::-1, ::-1]):
+                        k = int(np.argmax(np.any(m2 != m0[:, ::-1, ::-1], axis=(1, 2))))
+                        ctx.fail("swap-mirrors-matrix", dict(case, threshold=T[k], history="swap(); assign pos/neg/easy counts; swap()"),
+                                 observed=m2[k], expected=m0[:, ::-1, ::-1][k])
+                # (b) direction reversal in place: negate the scores, assign the other score_class (as the string the
+                #     constructor accepts), then ask for thresholds / EER / matrices
+                if ok and sn is not None:
+                    for label_kind in ("string", "enum"):
+                        ok_r, r_ = guarded(ctx, "construct", case, Scores, pos, neg, nb_easy_pos=ep, nb_easy_neg=en, score_class=sc, equal_class=ec)
+                        if not ok_r:
+                            continue
+                        guarded(ctx, "warm-up", case, lambda: (r_.threshold_at_fnr(0.3), r_.eer()))
+                        r_.pos, r_.neg = np.sort(-np.asarray(r_.pos)), np.sort(-np.asarray(r_.neg))
+                        r_.score_class = _flip(sc) if label_kind == "string" else type(s.score_class)(_flip(sc))
+                        c2 = dict(case, history=f"negate pos/neg in place; score_class = {_flip(sc)!r} ({label_kind})")
+                        ok1, mr = guarded(ctx, "negate-cm", c2, lambda: r_.cm(-Tarr).matrix)
+                        ctx.tick(len(T))
+                        if ok1 and not np.array_equal(mr, m0):
+                            ctx.fail("negation-leaves-matrix-unchanged", c2, observed="differs", expected="equal")
+                        tg_ = np.array([0.0, 0.2, 0.5, 0.85, 1.0])
+                        for metric in ("fnr", "fpr", "topr"):
+                            ok2, (ta, tb) = guarded(ctx, "threshold", dict(c2, metric=metric), lambda: (
+                                np.asarray(getattr(r_, "threshold_at_" + metric)(tg_), dtype=float),
+                                np.asarray(getattr(sn, "threshold_at_" + metric)(tg_), dtype=float)))
+                            ctx.tick()
+                            if ok2 and not np.allclose(ta, tb, rtol=0, atol=1e-9 * scale, equal_nan=True):
+                                ctx.fail("negation-negates-thresholds", dict(c2, metric=metric), observed=ta, expected=tb)
+                                break
             # ---------------------------------------------------- affine maps
             if item["grid"] == "ulp":
                 # scores one ulp apart (1.5, 1.5+ulp, ...): the exact shift by -1.5 pulls them many ulps apart
